@@ -71,6 +71,13 @@ def mutants(items, rng, cap=40):
             out.append((items[:i] + [("DUP2", None), ("DUP2", None), (name, None)] + items[i:], "dup-store:" + name))
         if name == "POP":
             out.append((items[:i] + items[i + 1:], "drop-pop"))
+        # two adjacent stores: exchange them together with their operands (addresses may alias)
+        if name in STORES and i + 1 < n and items[i + 1][0] in STORES:
+            out.append((items[:i] + [("SWAP2", None), ("SWAP1", None), ("SWAP3", None), ("SWAP1", None), items[i + 1], items[i]] + items[i + 2:],
+                        "reorder-stores:%s,%s" % (name, items[i + 1][0])))
+        if name in ("MLOAD", "SLOAD") and i + 1 < n and items[i + 1][0] in STORES and items[i + 1][0][0] == name[0]:
+            # load then store -> store then load (operands shuffled so that each keeps its own)
+            out.append((items[:i] + [("SWAP2", None), ("SWAP1", None), items[i + 1], items[i]] + items[i + 2:], "reorder-load-store:" + name))
     # reorder two adjacent memory/storage statements: swap the i-th and j-th store opcode kinds where possible
     idx = [i for i, (nm, _) in enumerate(items) if nm in STORES or nm in ("MLOAD", "SLOAD", "KECCAK256")]
     for a, b in zip(idx, idx[1:]):
@@ -124,6 +131,19 @@ def task_mutants(spec, summ):
         else:
             base = B.gen_block(rw, length=rw.choice([4, 6, 8, 12, 16]), pseudo=True, ending=rw.random() < 0.3,
                                profile=rw.choice(["memory", "rules", "plain", "split", "stack"]))
+        if rw.random() < 0.35:
+            # tail with adjacent memory/storage operations, so that the reordering operators apply
+            g = B.Gen(rw, {"pseudo": False})
+            g.h = 6
+            tail = []
+            kind = rw.choice(["ss", "ss", "ls"])
+            st1, st2 = rw.choice(["MSTORE", "MSTORE8", "SSTORE"]), rw.choice(["MSTORE", "SSTORE", "MSTORE8"])
+            for _ in range(4 if kind == "ss" else 3):
+                g.items = []
+                g.compile(g.leaf(6) if rw.random() < 0.7 else g.addr_tree(6))
+                tail += g.items
+            tail += [(st1, None), (st2, None)] if kind == "ss" else [("MLOAD" if st1[0] == "M" else "SLOAD", None), ("SWAP2", None), ("SWAP1", None), (st1, None)]
+            base = [it for it in base if it[0] not in AJ.END_SET] + tail
         if not legal(base, 16):
             continue
         need0 = evm.stack_need_and_delta(base)[0]
